@@ -433,6 +433,11 @@ class XG(object):
         if x < 0.64:
             return 'string-length(%s)' % self.string(sc, depth - 1)
         if x < 0.7:
+            nsv = self.vars_of(sc, 'elemset') + self.vars_of(sc, 'nodeset')
+            if nsv and r.random() < 0.5:
+                # a variable holding a node-set used as a number (converted through its first node), more than once
+                v = '$' + r.choice(nsv)
+                return r.choice(['number(%s)', '%s * 2', '(%s/@n) + 0', 'round(%s/@n)', 'number(%s) + number(%s/@n)']).replace('%s', v)
             return 'number(%s)' % r.choice(['@n', '.', '*[1]', "'12'", "' 7 '", "'x'", "''", 'true()', '@k'])
         if x < 0.9:
             op = r.choice(['+', '-', '*', 'mod', 'div', '+', '-'])
